@@ -69,10 +69,15 @@ def cmd_confirm(sid):
             # test_normalized / test_adjust_matrix / test_intersection are
             # flaky on the pinned snapshot as well (hypothesis): a 130/48 run
             # is repeated
+            # (a fresh example database per attempt: a failing example that
+            # was saved would be replayed first by the next attempt)
+            hyp = tempfile.mkdtemp(prefix='hyp-', dir=tmp)
             res = subprocess.run(['/venv/bin/python', '-m', 'pytest', '-q',
                                   '-p', 'no:cacheprovider', '--timeout=900',
                                   '--continue-on-collection-errors'], cwd=dst,
-                                 capture_output=True, text=True)
+                                 capture_output=True, text=True,
+                                 env=dict(os.environ,
+                                          HYPOTHESIS_STORAGE_DIRECTORY=hyp))
             counts = res.stdout.strip().split('\n')[-1]
             if '49 passed' in counts and '129 failed' in counts:
                 break
